@@ -358,4 +358,11 @@ def stmtUnsupported : PyStmt → Bool
   | .ret none => true
   | .other => true
 
+/-- a function body the exporter has to refuse: it does not begin with `return <expression>` (no other
+    statement has a MathML counterpart; what follows the first `return` is never reached), or the returned
+    expression contains an unsupported construct -/
+def bodyUnsupported : List PyStmt → Bool
+  | [] => true
+  | s :: _ => stmtUnsupported s
+
 end Mxl.C08
